@@ -151,9 +151,8 @@ def usesPrev (acts : List Member) : Bool :=
   | [] => false
 
 /-- names of the hoisted operands a chain refers to -/
-def capVars (b : Nat) : List Member → Nat → List Var
-  | [], _ => []
-  | m :: ms, e => (hoist b e m).1.map (fun d => Var.ew d.b d.e d.i) ++ capVars b ms (e + 1)
+def capVars (b : Nat) (acts : List Member) : List Var :=
+  (capDefsOf b acts 0).map fun d => Var.ew d.b d.e d.i
 
 structure EvalCfg where
   σ : World
@@ -181,7 +180,7 @@ def chainEvents (b k : Nat) (o : ChainOut) : List Ev :=
 def evalElem (c : EvalCfg) (k : Nat) (env : Env) (e : Elem) : M Value :=
   let prev? : Option (Option Value) :=
     if usesPrev e.acts then (env.lookup e.prev).map some else some none
-  match prev?, lookupAll env (capVars e.b e.acts 0) with
+  match prev?, lookupAll env (capVars e.b e.acts) with
   | some prev, some caps =>
     let o := c.σ.chain e.b k prev caps (visible c.names env)
     match e.wrap, e.lazy with
